@@ -275,3 +275,31 @@ func Harness_C08_setother_fault() { harnessC08(2, verifOpSetOther, true) }
 func Harness_C08_sub_fault()     { harnessC08(2, verifOpSub, true) }
 func Harness_C08_leave_fault()   { harnessC08(2, verifOpLeaveUnsub, true) }
 func Harness_C08_delsub_fault()  { harnessC08(2, verifOpDelSub, true) }
+
+// C03 over a two-step history: a {set sub} by a member - possibly refused because a store write failed - and then
+// a publish by the same member. The publish is accepted only if the member's write permission is on record (the
+// stored requested and granted modes both have W): a mode change that was refused must not linger in the live
+// topic and open the door.
+func Harness_C03_publish_after_set_sub() {
+	verifSubBits = types.ModeJoin | types.ModeWrite
+	w := verifSubSetup(2)
+	t, fx := w.t, w.fx
+	fx.store.failAt = verifChoose("failAt", 3) - 1
+	w.step(verifOpSetSelf)
+	fx.store.failAt = -1
+	actor := w.actor
+	sess := w.sess[actor]
+	verifAssume(sess.getSub(t.name) != nil)
+	_, member := t.perUser[actor]
+	verifAssume(member)
+	verifDrainSend(sess)
+	rows0 := len(fx.store.msgs)
+	pub := &ClientComMessage{Id: "p1", AsUser: actor.UserId(), AuthLvl: int(auth.LevelAuth), Original: t.name, RcptTo: t.name,
+		Timestamp: types.TimeNow(), sess: sess, init: true, Pub: &MsgClientPub{Id: "p1", Topic: t.name, Content: "x"}}
+	t.handlePubBroadcast(pub)
+	accepted := len(fx.store.msgs) > rows0
+	row := fx.store.subs[verifSubKey(t.name, actor)]
+	onRecord := row != nil && row.DeletedAt == nil && (row.ModeWant & row.ModeGiven).IsWriter()
+	verifAssert(accepted == onRecord, "publish-accepted-iff-write-permission-is-on-record")
+	verifReach("end")
+}
